@@ -31,6 +31,7 @@ ASSUMPTIONS = [
     "reference oracles of harness/oracles.py",
 ]
 BUDGET = {"quick": {"random": 1500}, "thorough": {"random": 25000}}
+FUZZ = {"thorough": {"runs": 20000, "max_time": 900}}
 
 
 def strategy(tier):
